@@ -126,25 +126,51 @@ func homeFor(opts Options) string {
 
 var newAppMu sync.Mutex
 
-// newApp constructs the application. The latest version is loaded explicitly (app.New with loadLatest=true calls
-// os.Exit(1) when loading fails, which would kill the harness instead of yielding a verdict); a load failure panics
-// with a recognisable message so that callers can judge it.
+// newApp constructs the application exactly as a node does (app.New with loadLatest=true, so that anything the
+// start-up path does - store loaders, checks, hooks - is executed). app.New calls os.Exit(1) when loading fails, which
+// would kill the harness without a verdict; therefore a database that already holds state is first opened on a COPY
+// with loadLatest=false + LoadLatestVersion, and a failure there is reported as a panic the caller can judge.
 func newApp(db dbm.DB, home string, upgrades int) *app.App {
-	var a *app.App
+	if err := probeOpen(db, home, upgrades); err != nil {
+		panic(fmt.Errorf("NODE CANNOT START: loading the latest version failed: %w", err))
+	}
+	return construct(db, home, upgrades, true)
+}
+
+func construct(db dbm.DB, home string, upgrades int, loadLatest bool) *app.App {
 	if upgrades > 0 && upgrades < len(fullUpgrades) {
 		// "old binary": only C19 does this, single-threaded; the package-level list is swapped under a lock
 		newAppMu.Lock()
+		defer newAppMu.Unlock()
 		app.Upgrades = fullUpgrades[:upgrades]
-		a = app.New(log.NewNopLogger(), db, nil, false, simtestutil.NewAppOptionsWithFlagHome(home), baseapp.SetChainID(ChainID))
-		app.Upgrades = fullUpgrades
-		newAppMu.Unlock()
-	} else {
-		a = app.New(log.NewNopLogger(), db, nil, false, simtestutil.NewAppOptionsWithFlagHome(home), baseapp.SetChainID(ChainID))
+		defer func() { app.Upgrades = fullUpgrades }()
 	}
-	if err := a.LoadLatestVersion(); err != nil {
-		panic(fmt.Errorf("NODE CANNOT START: loading the latest version failed: %w", err))
+	return app.New(log.NewNopLogger(), db, nil, loadLatest, simtestutil.NewAppOptionsWithFlagHome(home), baseapp.SetChainID(ChainID))
+}
+
+// probeOpen dry-runs the store loading on a copy of an in-memory database (other database kinds are opened by child
+// processes whose exit status is judged by the parent).
+func probeOpen(db dbm.DB, home string, upgrades int) error {
+	mem, ok := db.(*dbm.MemDB)
+	if !ok {
+		return nil
 	}
-	return a
+	it, err := mem.Iterator(nil, nil)
+	if err != nil {
+		return nil
+	}
+	cp := dbm.NewMemDB()
+	n := 0
+	for ; it.Valid(); it.Next() {
+		_ = cp.Set(append([]byte{}, it.Key()...), append([]byte{}, it.Value()...))
+		n++
+	}
+	it.Close()
+	if n == 0 {
+		return nil // fresh database: nothing to load
+	}
+	a := construct(cp, home, upgrades, false)
+	return a.LoadLatestVersion()
 }
 
 var fullUpgrades = app.Upgrades
